@@ -55,3 +55,36 @@ Theorem C04_code_single_plumbing : forall (V : Type) (getattr : V -> string -> V
     oracle (log ++ [Ev f_args [W; K; lam; beta; lim; eps; procs; m; biased]])%list f_stack [data; W] = Ret stacked.
 Proof. exact single_returns. Qed.
 Print Assumptions C04_code_single_plumbing.
+
+(* ---- where the main loop's labels come from, AS TRANSLATED (Gen/G_main_loop_suffix.v, Proofs/GenEquivRS.v): the label
+   list of the result is filled by exactly T = data.shape[0] copy steps  labels[i] = final_state.point_labels[i], i = 0 .. T-1
+   in order, and the result is built from that list, the final state's num_clusters and window_size and the MRF list
+   comprehended over the same final state ---- *)
+From Ticc Require Import Gen.G_main_loop_suffix Proofs.GenEquivRS.
+Theorem C04_code_result_labels : forall (V : Type) (vint : Z -> V) (as_int : V -> option Z) (getattr : V -> string -> V)
+    (oracle : list (event V) -> string -> list V -> res V)
+    (state data npoints r : V) (log log' : list (event V)) (T : Z),
+  as_int (getattr (getattr data "shape"%string) "[0]"%string) = Some T ->
+  g_fit_stacked_data_result V vint as_int getattr oracle state data npoints log = (Ret r, log') ->
+  exists pre copies post labelsT mrfs head9,
+    log' = (log ++ pre ++ copies ++ post)%list /\ length pre = 4%nat /\
+    length copies = (2 * Z.to_nat T)%nat /\
+    (forall i, (i < Z.to_nat T)%nat -> exists lb v, firstn 2 (skipn (2 * i) copies) = copy_events V vint getattr state lb i v) /\
+    nth_error post 0 = Some (Ev f_mrfs [state]) /\
+    nth_error post 9 = Some (Ev f_result (head9 ++ [mrfs; getattr (getattr state "arguments"%string) "num_clusters"%string; labelsT;
+                                 getattr (getattr state "arguments"%string) "window_size"%string])%list) /\
+    length head9 = 9%nat /\ length post = 10%nat.
+Proof.
+  intros V vint as_int getattr oracle state data npoints r log log' T HT Hrun.
+  destruct (result_assembly V vint as_int getattr oracle state data npoints r log log' T HT Hrun)
+    as (bic & chi & minus1 & copies & labelsT & mrfs & by_cluster & chained & all_ll & total & mean & median & cmean & cmedian
+        & Hlog & Hlen & Hcopies & _).
+  exists [Ev "cluster_metrics.bayesian_information_criterion"%string [state];
+          Ev "cluster_metrics.calinski_harabasz_index"%string [data; state];
+          Ev "expr:[-1]"%string []; Ev "op:*"%string [minus1; npoints]], copies.
+  eexists. exists labelsT, mrfs, [bic; chi; getattr state "label_assignment_cost"%string; total; mean; median; cmean; cmedian; all_ll].
+  split; [rewrite Hlog; reflexivity|].
+  split; [reflexivity|]. split; [exact Hlen|]. split; [exact Hcopies|].
+  split; [reflexivity|]. split; [reflexivity|]. split; reflexivity.
+Qed.
+Print Assumptions C04_code_result_labels.
